@@ -40,8 +40,9 @@ import (
 
 var debugOn = os.Getenv("VERIF_DEBUG") != ""
 
-// kfEmptySeries is the tag of the known finding "remote write 1.0 request rebuilt twice by the age filter contains
-// empty time series" (storage/remote/queue_manager.go, sendSamplesWithBackoff/buildTimeSeries).
+// kfEmptySeries was the tag of the finding "remote write 1.0 request rebuilt twice by the age filter contains empty
+// time series" (storage/remote/queue_manager.go, sendSamplesWithBackoff/buildTimeSeries), repaired in /repo; its
+// minimised plan is in regress/rwsim and the loss is reported as an ordinary violation should it return.
 const kfEmptySeries = "rw1-age-retry-empty-series"
 
 func scratchRoot() string {
@@ -1114,9 +1115,10 @@ func (e *exec) finalChecks(steps int) {
 		e.fail(f.Oracle, f.Sig, "%s", f.Detail)
 	}
 	if len(lostToJunk) > 0 {
-		// Known finding (see known_findings.json): a retried 1.0 request rebuilt twice by the age filter carries
-		// label-less time series; the receiver answers 400 and the still-young samples of the batch are lost.
-		e.fail("missing", "known:"+kfEmptySeries, "%d samples within the age limit were never accepted by the endpoint because their request carried time series without labels and was answered with 400: %s\nmalformed requests: %s",
+		// (Formerly the listed finding rw1-age-retry-empty-series, repaired in /repo: a retried 1.0 request rebuilt twice
+		// by the age filter carried label-less time series; the receiver answered 400 and the still-young samples of the
+		// batch were lost.)
+		e.fail("missing", "lost-to-a-request-with-empty-time-series", "%d samples within the age limit were never accepted by the endpoint because their request carried time series without labels and was answered with 400: %s\nmalformed requests: %s",
 			len(lostToJunk), strings.Join(lostToJunk, ", "), strings.Join(e.junk, "; "))
 	}
 	for _, p := range e.protoErrs {
